@@ -153,11 +153,19 @@ def check_point(ctx, cfg, hist, w, cov, found, only=None):
                     report(prefix + ":" + rest[0], "%s twin (all harness-side repairs applied) of %s/%s after %d events: %s"
                            % (twin, slabel, srname, len(hist), rest[1]), evs, twin)
             cov.outcome(twin + ":" + clause.split(":")[0] + (suffix and ":explained"))
-            report(prefix + ":" + clause + suffix,
-                   "%s twin of %s/%s after %d events: %s" % (twin, slabel, srname, len(hist), what), evs, twin)
-            for tag in tags:
-                report(prefix + ":" + tag + suffix,
-                       "%s twin of %s/%s after %d events: %s" % (twin, slabel, srname, len(hist), what), evs, twin)
+            msg = "%s twin of %s/%s after %d events: %s" % (twin, slabel, srname, len(hist), what)
+            if suffix:
+                # each harness-side repair needed to remove the divergence identifies one restore defect; the first
+                # differing observation goes into the text
+                for a in ok:
+                    report("%s:diverges-unless(%s)" % (prefix, a), msg + " [identical again with harness-side repair "
+                           "%s]" % "+".join(ok), evs, twin)
+                    for tag in tags:
+                        report("%s:%s:unless(%s)" % (prefix, tag, a), msg, evs, twin)
+            else:
+                report(prefix + ":" + clause, msg, evs, twin)
+                for tag in tags:
+                    report(prefix + ":" + tag, msg, evs, twin)
             if fatal:
                 break  # the twin cannot even be built at this crash point
     return viols
@@ -168,22 +176,35 @@ def _classify(ctx, cfg, hist, w, prep, evs, obs, cov, sr):
     returns (tuple of assists | None, result with all assists)"""
     app = tw.applicable_assists(sr)
     memo = ctx.cache.setdefault("__assist_memo__", [])
-    # minimal explanation first: single repairs (most recently successful first), then all of them together
-    trials = [m for m in memo if len(m) == 1 and m[0] in app]
-    trials += [(a,) for a in app if (a,) not in trials]
-    if len(app) > 1:
-        trials.append(tuple(app))
+    # minimal explanation first: single repairs (most recently successful first), then remembered combinations,
+    # then all of them together followed by greedy minimisation
+    def ok(assists):
+        return _one(ctx, cfg, hist, w, prep, "clone", assists, evs, obs, cov)
+
+    def hit(assists):
+        if assists in memo:
+            memo.remove(assists)
+        memo.insert(0, assists)
+        return assists, None
+
+    singles = [m for m in memo if len(m) == 1 and m[0] in app]
+    singles += [(a,) for a in app if (a,) not in singles]
     rest = None
-    for assists in trials:
-        r = _one(ctx, cfg, hist, w, prep, "clone", assists, evs, obs, cov)
-        if r is None:
-            if assists in memo:
-                memo.remove(assists)
-            memo.insert(0, assists)
-            return assists, None
-        if assists == tuple(app):
-            rest = r
-    return None, rest
+    for assists in singles + [m for m in memo if len(m) > 1 and set(m) <= set(app)]:
+        rest = ok(assists)
+        if rest is None:
+            return hit(assists)
+    if len(app) < 2:
+        return None, rest
+    rest = ok(tuple(app))
+    if rest is not None:
+        return None, rest
+    cur = list(app)
+    for a in list(app):
+        trial = tuple(x for x in cur if x != a)
+        if len(trial) >= 2 and ok(trial) is None:
+            cur = list(trial)
+    return hit(tuple(cur))
 
 
 def _one(ctx, cfg, hist, w, prep, twin, assists, evs, obs, cov):
@@ -202,6 +223,8 @@ def _one(ctx, cfg, hist, w, prep, twin, assists, evs, obs, cov):
         return None
     clause, what, i = bad
     note, tags = tw.repeat_skip_note(w.trace, obs, t)
+    if cfg.get("allow_dup"):
+        tags = []  # repeats are legal there; the text still carries the note
     if note:
         what += " — " + note
     return clause, what, False, tags
